@@ -254,6 +254,9 @@ def run(check, ctx):
     from .c13_extra import der_writer_rows, pem_roundtrip_rows
     der_writer_rows(check, repo)
     pem_roundtrip_rows(check, repo)
+    # PKCS#8 / PBES2 containers round-trip for every protection string (shared with C08)
+    from .c08_extra import pbes2_roundtrip_rows
+    pbes2_roundtrip_rows(check, repo)
     regex_lint(check, repo)
     kdf_gate(check, repo)
     check.assume("exception model: explicit raises along resolved calls inside the "
